@@ -490,3 +490,29 @@ Theorem C01_feeders_websocket_attachments_refuted :
     @parse_from nat wdeclared 0 None (ws1 ++ [11]) = Ok (None, [mkSP 31 [11]]) /\
     @parse_from nat wdeclared 0 None (ws1 ++ poll ++ ws2) = Err.
 Proof. exact feeders_websocket_attachments_refuted. Qed.
+
+(** * Several handlers of one name: [decode] is called once PER HANDLER on the same finished packet
+    (a closure over the reconstructor), each time with that handler's own parameter types.  With the
+    reconstructor's buffers threaded through the calls as the code does ([dec_keep]: reconstruct
+    never writes [r.buffers]) every handler - whatever its position and whatever the types of the
+    handlers before it - is handed the decode of the same packet, so the per-handler statements
+    above ([handed_b], one handler at a time) hold for all registrations at once. *)
+Theorem C01_dispatch_every_handler_same_packet :
+  forall (marshal : jv -> bytes) (unmarshal : bytes -> option jv) (hdr : header)
+         (bufs : list bytes) (hs : list (list ty)),
+    dispatch_all (dec_keep marshal unmarshal hdr) bufs hs
+    = map (Sio.Codec.decode marshal unmarshal hdr bufs) hs.
+Proof. exact dispatch_keep_independent. Qed.
+
+(** A reconstructor that releases the attachments after the first successful decode (a class of
+    breaking change: mutant ind2) is refuted: Emit("e", Binary{7,8}) with two handlers
+    [func(Binary)] - the first gets the two bytes, the second the placeholder text, without error. *)
+Theorem C01_dispatch_releasing_decode_refuted :
+  let r := raw_of ex_item in
+  dispatch_all (dec_keep jprint jparse (fst (fst r))) (snd r) [[TBin]; [TBin]]
+    = [Ok [BBin [7%N; 8%N]]; Ok [BBin [7%N; 8%N]]]
+  /\ exists other,
+       dispatch_all (dec_release jprint jparse (fst (fst r))) (snd r) [[TBin]; [TBin]]
+         = [Ok [BBin [7%N; 8%N]]; other]
+       /\ other <> Ok [BBin [7%N; 8%N]].
+Proof. exact dispatch_release_refuted. Qed.
